@@ -483,6 +483,7 @@ def run_scenario(sc, chooser=None, seed=0, max_steps=30000):
             # levels) of untriggered composites among them — a triggered composite has let go of its operands, so an inner
             # composite that only it referred to is gone, and its hooks with it
             held = set(z for z, o in live.items() if any(o is v for v in vars_.values()))
+            zid_of = dict((id(o), z) for z, o in live.items())
             reach, todo = set(), list(held)
             while todo:
                 c = todo.pop()
@@ -491,6 +492,19 @@ def run_scenario(sc, chooser=None, seed=0, max_steps=30000):
                 reach.add(c)
                 if c in info and info[c]["kind"] in ("or", "and") and not truth[c]:
                     todo.extend(d for d in info[c]["ops"] if d >= 2)
+                # the callbacks waiting on a reachable signal hold their objects strongly: an AndSignals its composite and its
+                # operands (a dropped AND composite lives on while an operand can still count it down), an OrSignal its operands
+                # (its composite only weakly)
+                for j in (jobs_of(live[c]) if c in live else []):
+                    owner = getattr(getattr(j, "target", j), "__self__", getattr(j, "target", j))
+                    objs = []
+                    if isinstance(owner, AndSignals):
+                        objs = [owner.signal] + list(owner.dependencies or [])
+                    elif isinstance(owner, OrSignal):
+                        objs = list(getattr(owner, "dependencies", None) or [])
+                    for x in objs:
+                        if id(x) in zid_of:
+                            todo.append(zid_of[id(x)])
             for z, o in live.items():
                 hooks = sum(1 for j in jobs_of(o) if isinstance(getattr(j, "target", j), OrSignal))
                 owners = sum((1 if info[c]["ops"][0] == z else 0) + (1 if info[c]["ops"][1] == z else 0)
